@@ -74,6 +74,7 @@ def cells(tier):
     for N, k in ((2, 1), (2, 2), (3, 0)):
         out.append(rcell(PID, N, k, T=T))
     out.append(rcell(PID, 2, 2, T=T, repeat_id=True))
+    out.append(rcell(PID, 2, 2, T=T, base_attrs=True))
     out.append(rcell(PID, 1, 1, T=T, repeat_id=True))
     # states reached through a collection merge (strict and non-strict, with failing messages, complete or not)
     from .p_c09 import mk as cmk
